@@ -114,6 +114,17 @@ def default_args(fn, overrides=None, local_in_range=True, variants=('fixed', 'lo
         import itertools
         body = I.bodies[fn]
         names = arg_names(body)
+        nonlocal overrides
+        if overrides:
+            # a key 'name@k' means: the parameter called `name`, or, when no parameter has that name (it was renamed), parameter number k
+            ov = {}
+            for key, f in overrides.items():
+                if '@' in key:
+                    nm, pos = key.rsplit('@', 1)
+                    ov[nm if nm in names else (names[int(pos) - 1] if int(pos) <= len(names) else nm)] = f
+                else:
+                    ov[key] = f
+            overrides = ov
         kinds = [_special(body['locals'][i + 1]) for i in range(len(names))]
         nsp = [i for i, (k, _) in enumerate(kinds) if k and not (overrides and names[i] in overrides)]
         outs = []
